@@ -172,6 +172,13 @@ func TestVerifMetaDaemon(t *testing.T) {
 		VerifSetHook(r.URL.Query().Get("point"), nil)
 		io.WriteString(w, "ok")
 	})
+	mux.HandleFunc("/exit", func(w http.ResponseWriter, r *http.Request) {
+		go func() {
+			n.Exit() // graceful shutdown (what SIGTERM does in apps/nsqd); may be parked at a verif point
+			os.Exit(0)
+		}()
+		io.WriteString(w, "ok")
+	})
 	mux.HandleFunc("/force", func(w http.ResponseWriter, r *http.Request) {
 		vfMetaForce(r.URL.Query().Get("point"))
 		io.WriteString(w, "ok")
@@ -210,6 +217,7 @@ type vfMetaRun struct {
 	ctl     string // control dir
 	p       *vfMetaProc
 	lastStarted *vfMetaProc
+	exitPoint   string
 	dead    bool
 	out     *vfMetaLines
 	cli     *http.Client
@@ -433,6 +441,7 @@ func (r *vfMetaRun) exec(line string) {
 		}
 		r.p = r.lastStarted
 		r.dead = false
+		r.exitPoint = ""
 		st, _ := r.get(r.p.ctl, "/state")
 		r.out.Case("restart "+st, "ok")
 	case "second":
@@ -445,9 +454,27 @@ func (r *vfMetaRun) exec(line string) {
 			r.lastStarted.cmd.Process.Signal(syscall.SIGKILL)
 			<-r.lastStarted.done
 			r.out.Case("second", "started")
-			r.fail("second-instance", "a second nsqd started on a data path that is in use")
+			what := "a second nsqd started on a data path that is in use"
+			if r.exitPoint != "" {
+				what += " (the first nsqd is inside Exit(), parked at " + r.exitPoint + ": it has not finished writing nsqd.dat / flushing its queues)"
+			}
+			r.fail("second-instance", what)
 		} else if strings.Contains(res, "lock") {
-			r.out.Case("second", "refused")
+			// and in this process: New() on the same data path must fail on the flock as well
+			o := NewOptions()
+			o.Logger = log.New(io.Discard, "", 0)
+			o.DataPath = r.dir
+			o.TCPAddress = "127.0.0.1:0"
+			o.HTTPAddress = "127.0.0.1:0"
+			if n2, err := New(o); err == nil {
+				n2.tcpListener.Close()
+				n2.httpListener.Close()
+				n2.dl.Unlock()
+				r.out.Case("second", "started")
+				r.fail("second-instance", "New() succeeded on a data path that is in use (during: "+r.exitPoint+")")
+			} else {
+				r.out.Case("second", "refused")
+			}
 		} else {
 			r.out.Case("second", res)
 		}
@@ -495,6 +522,36 @@ func (r *vfMetaRun) exec(line string) {
 			r.out.Case("kill", "ok")
 		}
 		r.dead = true
+	case "exitpark": // graceful Exit of the daemon, parked at a verif point inside Exit
+		if r.dead {
+			return
+		}
+		r.get(r.p.ctl, "/hold?point="+w[1])
+		r.get(r.p.ctl, "/exit")
+		res := "not-parked"
+		for i := 0; i < 600; i++ {
+			if p, err := r.get(r.p.ctl, "/parked"); err == nil && p == "1" {
+				res = "parked"
+				break
+			}
+			time.Sleep(5 * time.Millisecond)
+		}
+		r.exitPoint = w[1]
+		r.out.Case(line, res)
+	case "exitrelease":
+		if r.dead {
+			return
+		}
+		r.get(r.p.ctl, "/release?point="+r.exitPoint)
+		res := "exited"
+		select {
+		case <-r.p.done:
+		case <-time.After(15 * time.Second):
+			res = "exit-timeout"
+			r.kill()
+		}
+		r.dead = true
+		r.out.Case(line, res)
 	case "race": // race <op A...> // <op B...> : A is parked right after its snapshot, B runs, A is released
 		if r.dead {
 			return
@@ -791,6 +848,12 @@ func vfMetaScript(rng *vfRand, kind int, idx int) []string {
 		} else {
 			s = append(s, "force topic.delete.afterNotify", "deletetopic t2", "idle", "kill", "restart", "idle")
 		}
+	case 6: // a second instance while the first one is inside Exit() (listeners closed, still writing)
+		pt := []string{"meta.persist.afterSnapshot", "topic.exit.beforeFlush"}[idx%2]
+		s = append(s, "createtopic t1", "createchan t1 c0", "idle", "second", "exitpark "+pt, "second", "exitrelease",
+			"restart", "idle", "second")
+		s = append(s, sh.churn(rng, 2)...)
+		s = append(s, "idle")
 	case 5: // SIGKILL inside the persists of a deletion: the Notify one (k = 1 or 2) and the post-unlink one (F6 path)
 		pt := vfMetaPoints[idx%5] // the five meta.persist.* points
 		k := 1 + (idx/5)%2
@@ -863,7 +926,7 @@ func TestVerifMetaCorr(t *testing.T) {
 		k0 := int(rng.Next() % 9)
 		k5 := int(rng.Next() % 20)
 		for i := 0; i < n; i++ {
-			kind := []int{0, 0, 5, 1, 1, 2, 3, 4}[i%8]
+			kind := []int{0, 6, 5, 1, 1, 2, 3, 4}[i%8]
 			if os.Getenv("VERIF_META_KIND") != "" {
 				kind = vfEnvInt("VERIF_META_KIND", 0)
 			}
@@ -878,6 +941,9 @@ func TestVerifMetaCorr(t *testing.T) {
 			if kind == 5 {
 				idx = k5
 				k5++
+			}
+			if kind == 6 {
+				idx = i / 8
 			}
 			scripts = append(scripts, vfMetaScript(rng, kind, idx))
 		}
